@@ -123,7 +123,7 @@ def recipes_for(ctx, rows, per_setting):
             hi = [rng.randint(0, 1) for _ in range(3)]
             out.append({"number": r["number"], "choice": r["choice"], "table_ops": r["ops"], "n": n, "gram": gram,
                         "u": rng.uniform(3.0, 12.0) / (max(gram[i][i] for i in range(3)) ** 0.5),
-                        "asym": asym, "slab": [lo, hi], "route": rng.choice(["params", "vectors"]),
+                        "asym": asym, "slab": [lo, hi], "route": rng.choice(["params", "vectors", "respec"]),
                         "decimals": rng.choice([0, 0, 12, 9])})
     # special positions with coordinates in thirds / sixths / twelfths, given to file precision: their symmetry images
     # carry different rounding noise and may coincide across a cell face (0.0 vs 0.99999...)
@@ -156,6 +156,23 @@ def recipes_for(ctx, rows, per_setting):
                     continue
                 rec_r.update(slab=[[-1, 0, -1], [0, 1, 0]], route="params", decimals=0, src="switched in place H->R after use")
                 out.append(rec_r)
+    # a large asymmetric unit (more than 256 sites: large Z', P1 supercells): parent-site indices beyond one byte
+    for r in rows:
+        if r["number"] in (1, 2) and (r["number"] == 2 or not ctx.quick):
+            nsites = rng.randint(258, 300)
+            used, asym = set(), []
+            while len(asym) < nsites:
+                p = [rng.randrange(48) for _ in range(3)]
+                orb = xtal.orbit(r["ops"], p, 48)
+                if len(orb) != len(r["ops"]) or orb & used:
+                    continue
+                used |= orb
+                z = rng.choice(xtal.ELEMENTS)
+                asym.append({"z": z, "p": p, "occ": 12, "label": "%s%d" % (xtal.SYMBOLS[z], len(asym) + 1)})
+            gram = xtal.sym_gram(r["ops"], rng)
+            out.append({"number": r["number"], "choice": r["choice"], "table_ops": r["ops"], "n": 48, "gram": gram,
+                        "u": rng.uniform(20.0, 30.0) / (max(gram[i][i] for i in range(3)) ** 0.5),
+                        "asym": asym, "slab": [[0, 0, 0], [0, 0, 0]], "route": "params", "decimals": 0, "src": "large asymmetric unit"})
     # sites at lattice points written as integers ([[0, 0, 0]], [[1, 0, -1]]): every operation with a translation part must
     # still move them by that fraction
     for i, r in enumerate(rows):
